@@ -379,6 +379,8 @@ def render_one(M, fa):
         if base == 'char': return encode_char(M, v)
         if base in ('eval::error::Error', 'Error'):
             return display_local(M, v, '<Error as std::fmt::Display>::fmt')
+        if base in ('Box<eval::error::Error>', 'Box<Error>'):
+            return display_local(M, v.d['slot'][0], '<Error as std::fmt::Display>::fmt')
         if base in ('FromUtf8Error',):
             # Display of core::str::Utf8Error
             if v.d.get('sym'): raise Unsupported('Display of a Utf8Error over symbolic bytes')
@@ -953,3 +955,11 @@ def _(M, a, c):
     m = V(a[0]); inner = re.match(r'^<(?:BTreeMap|HashMap)<(.*)> as Clone>::clone$', norm_name(c)).group(1)
     kt, vt = split_top(inner)[:2]
     return Native(m.kind, m={k: [clone_val(M, e[0], kt), clone_val(M, e[1], vt)] for k, e in m.d['m'].items()})
+
+@model_re(r"^<&*(str|String) as PartialEq(<&*(str|String)>)?>::(eq|ne)$")
+def _(M, a, c):
+    def sl(v):
+        while isinstance(v, Ref): v = v.load()
+        return as_slice(v)
+    r = ms.m_str_eq(M, [sl(a[0]), sl(a[1])], c)
+    return bnot(r) if norm_name(c).endswith('::ne') else r
